@@ -45,6 +45,9 @@ func (s *Sim) oracleUnsubscribe(c *Client, r *CReq, f *Frame, n int) {
 	if !r.Valid {
 		return
 	}
+	if c.Tainted != "" {
+		return
+	}
 	s.stat("oracle.C08.a", 1)
 	if r.BadCnt {
 		if f.Error == nil || f.Error.Code != "system.invalidParams" {
@@ -59,13 +62,8 @@ func (s *Sim) oracleUnsubscribe(c *Client, r *CReq, f *Frame, n int) {
 	if r.Count != nil {
 		cnt = *r.Count
 	}
-	// requests for the same rid that are still unanswered on this connection
-	pendingSame := false
-	for _, o := range c.ReqL {
-		if o != r && o.Resp == nil && o.RID == r.RID && o.Action != "unsubscribe" && o.ID < r.ID {
-			pendingSame = true
-		}
-	}
+	// requests that may hold a provisional direct count on this rid
+	pendingSame := c.provisionalOn(r)
 	shape := "plain"
 	if pendingSame {
 		shape = "pending-request-same-rid"
@@ -75,12 +73,46 @@ func (s *Sim) oracleUnsubscribe(c *Client, r *CReq, f *Frame, n int) {
 			s.violate("C08", "a", "refused-"+shape, "client %s: unsubscribe %s count %d refused (%s) although the client has %d direct subscriptions", c.Name, r.RID, cnt, f.Error.Code, n)
 		}
 	} else {
+		if f.Error == nil && pendingSame {
+			c.Tainted = "F-3"
+			s.stat("tainted_clients", 1)
+		}
 		if f.Error == nil {
 			s.violate("C08", "a", "accepted-"+shape, "client %s: unsubscribe %s count %d succeeded although the client has only %d direct subscriptions", c.Name, r.RID, cnt, n)
 		} else if f.Error.Code != "system.noSubscription" {
 			s.violate("C08", "a", "wrongcode-"+shape, "client %s: unsubscribe %s count %d failed with %s instead of system.noSubscription", c.Name, r.RID, cnt, f.Error.Code)
 		}
 	}
+}
+
+// provisionalOn reports whether some unanswered request of this connection may
+// hold a provisional direct subscription on the rid of unsubscribe request r:
+// an earlier subscribe/get/new for the same rid, or a call/auth/new whose
+// service answer (seen at the seam) was a resource response naming that rid.
+func (c *Client) provisionalOn(r *CReq) bool {
+	for _, o := range c.ReqL {
+		if o != r && o.Resp == nil && o.ID < r.ID && o.Action != "unsubscribe" && o.Action != "version" {
+			if o.RID == r.RID && (o.Action == "subscribe" || o.Action == "get") {
+				return true
+			}
+			if o.Action == "call" || o.Action == "auth" || o.Action == "new" {
+				// its service answer may name any rid
+				want := "rid:" + r.RID
+				c.s.mu.Lock()
+				hit := false
+				for _, q := range c.s.tr.reqs {
+					if q.CIdx == c.CIdx && (q.Type == "call" || q.Type == "auth") && q.Answered && c.s.canonLocked(q.Outcome) == c.s.canonLocked(c.expandCID(want)) {
+						hit = true
+					}
+				}
+				c.s.mu.Unlock()
+				if hit {
+					return true
+				}
+			}
+		}
+	}
+	return false
 }
 
 func (s *Sim) oracleUnsubEvent(c *Client, rid string, f *Frame) {
@@ -212,6 +244,9 @@ func (s *Sim) oracleQuiescence() {
 			s.stat("oracle.C07.b", 1)
 			if r.RespN == 0 {
 				shape := "plain"
+				if c.Tainted != "" {
+					shape = "unsubscribed-while-pending"
+				}
 				if r.Action != "unsubscribe" {
 					for _, o := range c.ReqL {
 						if o.Action == "unsubscribe" && o.RID == r.RID && o.ID > r.ID && o.Resp != nil && o.Resp.Error == nil && o.Resp.Step <= s.Step {
@@ -222,7 +257,9 @@ func (s *Sim) oracleQuiescence() {
 				s.violate("C07", "b", "unanswered-"+shape, "client %s: request %d (%s) never received a response although every service request has been answered or timed out", c.Name, r.ID, r.Method)
 			}
 		}
-		s.checkConvergence(c)
+		if c.Tainted == "" {
+			s.checkConvergence(c)
+		}
 	}
 	s.checkIntervals(true)
 	s.accessQuiescence()
@@ -297,6 +334,9 @@ func (s *Sim) checkIntervals(quiescent bool) {
 	for _, c := range s.Clients {
 		for _, iv := range c.Ivs {
 			if iv.checked {
+				continue
+			}
+			if c.Tainted != "" {
 				continue
 			}
 			open := !iv.Closed && c.State == "open" && !c.eofSeen()
